@@ -14,9 +14,14 @@
 (*                   every requested route was announced on it              *)
 (*   RefuseWrongASN  nothing is received on a connection after the peer     *)
 (*                   presented an unexpected ASN, and it is never installed *)
-(*   QuietAfterClose no connection is accepted after Close returned; no     *)
-(*                   connection is installed and no UPDATE written with     *)
-(*                   closed = TRUE read under the session's own lock        *)
+(*   QuietAfterClose no connection is accepted after Close returned; nothing *)
+(*                   is received on a connection whose handshake the peer   *)
+(*                   answered only after Close returned (whatever arrives   *)
+(*                   there was sent in reaction to that answer, hence after *)
+(*                   Close returned; a Close that is still blocked while    *)
+(*                   the handshake is pending is not judged); no connection *)
+(*                   is installed and no UPDATE written with closed = TRUE  *)
+(*                   read under the session's own lock                      *)
 (*                                                                          *)
 (* (b) hook side - trace validation against BGPSession: every hook event    *)
 (*   must be an enabled action of the specification whose post-state has    *)
@@ -43,9 +48,10 @@ VARIABLES
   deadc,    \* connections the peer has dropped
   estab,    \* peer indices of the connections the session installed (hook "connected"), in order
   okc,      \* (a) connections on which the peer presented the expected ASN, in order
+  lateOpen, \* (a) connections whose OPEN the peer answered after Close had returned
   closeRet  \* (a) Close has returned
 
-tvars == <<i, sync, fl, tabs, ann, wrongc, lastAcc, deadc, estab, okc, closeRet>>
+tvars == <<i, sync, fl, tabs, ann, wrongc, lastAcc, deadc, estab, okc, lateOpen, closeRet>>
 
 Big == [sets |-> 1000000, drops |-> 1000000, refuse |-> 1000000]
 Tbl(x) == [r \in Routes |-> x[r]]
@@ -68,12 +74,12 @@ Stutter == UNCHANGED vars
 SenderReturnsTrue ==
   /\ snd.pc \in {"connected", "woke"} /\ conn = 0
   /\ snd' = At("dial") /\ act' = [a |-> "SenderRetry"]
-  /\ UNCHANGED <<closed, conn, nconn, advertised, new, readers, PeerSide, lastRequested, budget, cnt>>
+  /\ UNCHANGED <<call, closed, conn, nconn, advertised, new, readers, PeerSide, lastRequested, budget, cnt>>
 
-ConnectFailed ==
-  /\ snd.pc = "dial"
-  /\ cnt' = [cnt EXCEPT !.dials = @ + 1] /\ act' = [a |-> "ConnectRefused"]
-  /\ UNCHANGED <<closed, conn, nconn, advertised, new, snd, readers, PeerSide, lastRequested, budget>>
+ConnectFailed ==                     \* connect() returned an error (refused peer, or the dial itself failed)
+  /\ snd.pc \in {"dial", "hs"}
+  /\ snd' = At("dial") /\ act' = [a |-> "ConnectRefused"]
+  /\ UNCHANGED <<call, closed, conn, nconn, advertised, new, readers, PeerSide, lastRequested, budget, cnt>>
 
 StaleReader ==
   LET cand == readers \ {conn} IN
@@ -113,7 +119,7 @@ HookStep(o) == HookAction(o) /\ (o.st => MatchPost(o))
 ResetModel ==
   /\ closed' = FALSE /\ conn' = 0 /\ nconn' = 0
   /\ advertised' = Empty /\ new' = NoNew
-  /\ snd' = At("dial") /\ readers' = {}
+  /\ snd' = At("dial") /\ readers' = {} /\ call' = NoCall
   /\ wire' = <<>> /\ peerTable' = Empty /\ peerAlive' = FALSE
   /\ lastRequested' = Empty /\ sentTable' = Empty
   /\ budget' = Big /\ cnt' = [dials |-> 0, sent |-> 0]
@@ -123,7 +129,7 @@ ResetModel ==
 ModelDrop(o) ==
   IF estab # <<>> /\ o.c = estab[Len(estab)]
   THEN /\ peerAlive' = FALSE /\ wire' = <<>>
-       /\ UNCHANGED <<closed, conn, nconn, advertised, new, snd, readers, peerTable, lastRequested, sentTable, budget, cnt, act>>
+       /\ UNCHANGED <<call, closed, conn, nconn, advertised, new, snd, readers, peerTable, lastRequested, sentTable, budget, cnt, act>>
   ELSE Stutter
 
 ----------------------------------------------------------------------------
@@ -147,7 +153,7 @@ PeerFails(o) ==
   CASE o.k = "settled" ->
          If(TableOf(o.c) = Range(o.req), "C17.Converges")
          \cup If(FirstEstab(o.c) \/ {x.r : x \in Range(o.req)} \subseteq AnnouncedOn(o.c), "C17.FullResend")
-    [] o.k = "msg" -> If(o.c \notin wrongc, "C17.RefuseWrongASN")
+    [] o.k = "msg" -> If(o.c \notin wrongc, "C17.RefuseWrongASN") \cup If(o.c \notin lateOpen, "C17.QuietAfterClose")
     [] o.k = "accept" -> If(~closeRet, "C17.QuietAfterClose")
     [] o.k = "hook" ->
          (IF o.st /\ o.closed /\ o.pt \in SentEvents \cup {"connected"} THEN {"C17.QuietAfterClose"} ELSE {})
@@ -158,16 +164,16 @@ PeerFails(o) ==
 TInit ==
   /\ InitWith(Big)
   /\ i = 0 /\ sync = TRUE /\ fl = {}
-  /\ tabs = {} /\ ann = {} /\ wrongc = {} /\ lastAcc = 0 /\ deadc = {} /\ estab = <<>> /\ okc = <<>> /\ closeRet = FALSE
+  /\ tabs = {} /\ ann = {} /\ wrongc = {} /\ lastAcc = 0 /\ deadc = {} /\ estab = <<>> /\ okc = <<>> /\ lateOpen = {} /\ closeRet = FALSE
 
-PeerVarsUnchanged == UNCHANGED <<tabs, ann, wrongc, lastAcc, deadc, estab, okc, closeRet>>
+PeerVarsUnchanged == UNCHANGED <<tabs, ann, wrongc, lastAcc, deadc, estab, okc, lateOpen, closeRet>>
 
 Line(o) ==
   CASE o.k = "meta" ->
          /\ ResetModel /\ sync' = o.hooks /\ fl' = {}
-         /\ tabs' = {} /\ ann' = {} /\ wrongc' = {} /\ lastAcc' = 0 /\ deadc' = {} /\ estab' = <<>> /\ okc' = <<>> /\ closeRet' = FALSE
+         /\ tabs' = {} /\ ann' = {} /\ wrongc' = {} /\ lastAcc' = 0 /\ deadc' = {} /\ estab' = <<>> /\ okc' = <<>> /\ lateOpen' = {} /\ closeRet' = FALSE
     [] o.k = "hook" ->
-         /\ UNCHANGED <<tabs, ann, wrongc, lastAcc, deadc, okc, closeRet>>
+         /\ UNCHANGED <<tabs, ann, wrongc, lastAcc, deadc, okc, lateOpen, closeRet>>
          /\ estab' = IF o.pt = "connected" THEN Append(estab, lastAcc) ELSE estab
          /\ IF ~sync THEN Stutter /\ sync' = sync /\ fl' = PeerFails(o)
             ELSE \/ /\ HookStep(o) /\ sync' = TRUE
@@ -178,22 +184,23 @@ Line(o) ==
                     /\ fl' = PeerFails(o) \cup {"DRIFT." \o o.pt}
     [] o.k = "drop" ->
          /\ ModelDrop(o) /\ deadc' = deadc \cup {o.c} /\ fl' = {}
-         /\ UNCHANGED <<sync, tabs, ann, wrongc, lastAcc, estab, okc, closeRet>>
+         /\ UNCHANGED <<sync, tabs, ann, wrongc, lastAcc, estab, okc, lateOpen, closeRet>>
     [] o.k = "accept" ->
          /\ Stutter /\ lastAcc' = o.c /\ fl' = PeerFails(o)
-         /\ UNCHANGED <<sync, tabs, ann, wrongc, deadc, estab, okc, closeRet>>
+         /\ UNCHANGED <<sync, tabs, ann, wrongc, deadc, estab, okc, lateOpen, closeRet>>
     [] o.k = "sentopen" ->
          /\ Stutter /\ wrongc' = (IF o.wrong THEN wrongc \cup {o.c} ELSE wrongc) /\ fl' = {}
          /\ okc' = (IF o.wrong THEN okc ELSE Append(okc, o.c))
+         /\ lateOpen' = (IF closeRet THEN lateOpen \cup {o.c} ELSE lateOpen)
          /\ UNCHANGED <<sync, tabs, ann, lastAcc, deadc, estab, closeRet>>
     [] o.k = "msg" ->
          /\ Stutter /\ ApplyMsg(o) /\ fl' = PeerFails(o)
-         /\ UNCHANGED <<sync, wrongc, lastAcc, deadc, estab, okc, closeRet>>
+         /\ UNCHANGED <<sync, wrongc, lastAcc, deadc, estab, okc, lateOpen, closeRet>>
     [] o.k = "settled" ->
          /\ Stutter /\ fl' = PeerFails(o) /\ UNCHANGED sync /\ PeerVarsUnchanged
     [] o.k = "close.ret" ->
          /\ Stutter /\ closeRet' = TRUE /\ fl' = {}
-         /\ UNCHANGED <<sync, tabs, ann, wrongc, lastAcc, deadc, estab, okc>>
+         /\ UNCHANGED <<sync, tabs, ann, wrongc, lastAcc, deadc, estab, okc, lateOpen>>
     [] OTHER -> Stutter /\ fl' = {} /\ UNCHANGED sync /\ PeerVarsUnchanged
 
 (* The sender's exits from sendUpdates after a wake-up (closed: return false; conn = nil: return  *)
@@ -204,12 +211,21 @@ NeedsImplicit(o) ==
   o.k = "hook" /\ sync /\ o.g # "sender" /\ o.st /\ snd.pc = "woke" /\ (closed \/ conn = 0)
 ImplicitSenderLeave ==
   /\ snd' = At(IF closed THEN "done" ELSE "dial") /\ act' = [a |-> "Implicit"]
-  /\ UNCHANGED <<closed, conn, nconn, advertised, new, readers, PeerSide, lastRequested, budget, cnt>>
-  /\ fl' = {} /\ UNCHANGED <<i, sync, tabs, ann, wrongc, lastAcc, deadc, estab, okc, closeRet>>
+  /\ UNCHANGED <<call, closed, conn, nconn, advertised, new, readers, PeerSide, lastRequested, budget, cnt>>
+  /\ fl' = {} /\ UNCHANGED <<i, sync, tabs, ann, wrongc, lastAcc, deadc, estab, okc, lateOpen, closeRet>>
+
+(* connect() has no hook point between taking s.mu and installing the connection: the start of *)
+(* the handshake (ConnectBegin) is taken, without consuming a line, when "connected" arrives.   *)
+NeedsBegin(o) == o.k = "hook" /\ sync /\ o.pt = "connected" /\ snd.pc = "dial" /\ ~closed
+ImplicitConnectBegin ==
+  /\ ConnectBegin
+  /\ fl' = {} /\ UNCHANGED <<i, sync, tabs, ann, wrongc, lastAcc, deadc, estab, okc, lateOpen, closeRet>>
 
 TNext == /\ i < N
          /\ LET o == Trace[i + 1] IN
-            IF NeedsImplicit(o) THEN ImplicitSenderLeave ELSE i' = i + 1 /\ Line(o)
+            IF NeedsImplicit(o) THEN ImplicitSenderLeave
+            ELSE IF NeedsBegin(o) THEN ImplicitConnectBegin
+            ELSE i' = i + 1 /\ Line(o)
 
 Info(o) ==
   IF o.k = "settled"
